@@ -1,5 +1,6 @@
 (* Properties/C13.v — Pedersen commitments equal v*B + r*B_blinding and are additively homomorphic. *)
 Require Import BP.Proofs.PedersenLemmas.
+Require Import BP.Proofs.IndepLemmas.
 Open Scope F_scope.
 Open Scope M_scope.
 
@@ -32,3 +33,10 @@ Theorem C13_prover_commit :
     /\ v_tr (fst (v_commit vs V)) = v_tr vs ++ [App "V" (PPoint V)].
 Proof. intros. unfold p_commit, v_commit, append_point. simpl. repeat split. Qed.
 Print Assumptions C13_prover_commit.
+
+(* binding: with independent bases a commitment has exactly one opening *)
+Theorem C13_binding_under_independence :
+  forall (K : FieldOps) (FL : FieldLaws K) (MO : ModOps K) (ML : ModLaws MO) (B Bb : MO) (v r v' r' : K),
+    indep2 B Bb -> pedersen_commit B Bb v r = pedersen_commit B Bb v' r' -> v = v' /\ r = r'.
+Proof. intros; eapply pedersen_binding; eassumption. Qed.
+Print Assumptions C13_binding_under_independence.
